@@ -140,20 +140,30 @@ fn check_changed(s: &Signed, pk: &[u8], msg: &[u8], sig: &[u8], target: &str, po
         Err(p) => l.violation(format!("{name}:verify-panics:{target}"), format!("verification panicked on a changed {target}: {p} at {}", mc_core::last_panic_location()), case_json("changed", s, pk, msg, sig, target, pos)),
         Ok(o) => {
             let mut bad = false;
-            // ECDSA itself (any correct implementation): for z == 0 (mod n) the verification equation is
-            // R = (r/s)*P, and -P gives -R with the same x coordinate, so the *same* signature is valid under
-            // the negated key. Not decided by the implementation => informational, exactly this twin only.
-            let ecdsa_zero_hash_twin = s.scheme == Scheme::Secp
-                && (msg == [0u8; 32] || msg == SECP_N)
-                && msg == &s.msg[..]
-                && sig == &s.sig[..]
-                && pk.len() == 33
-                && pk[1..] == s.pk[1..]
-                && pk[0] == s.pk[0] ^ 1;
-            if o.verified && ecdsa_zero_hash_twin {
-                l.info("ecdsa-zero-hash:negated-key-verifies(mathematical)");
-                l.class("changed-public-key:ecdsa-zero-hash-twin");
-                return;
+            // ECDSA itself (any correct implementation): the 32-byte hash is used as z = hash mod n, and the
+            // verification equation R = (z/s)*G + (r/s)*P maps to -R (same x coordinate, same r) under
+            // (z, P) -> (-z mod n, -P). So the *same* signature is valid (a) for a hash congruent mod n to the
+            // signed one under the same key and (b) for a hash congruent to the negated one under the negated key
+            // (for z == 0 that is the same hash). The message/key sets contain such pairs on purpose (0, n, 1,
+            // n-1; scalars 1 and n-1). Not decided by the implementation => informational; exactly these
+            // algebraic twins, everything else stays demanded.
+            if s.scheme == Scheme::Secp && sig == &s.sig[..] && msg.len() == 32 && pk.len() == 33 {
+                let red = |m: &[u8]| -> [u8; 32] {
+                    let a: [u8; 32] = m.try_into().unwrap();
+                    if a >= SECP_N { sub_be(&a, &SECP_N) } else { a }
+                };
+                let (z_given, z_signed) = (red(msg), red(&s.msg));
+                let neg_signed = if z_signed == [0u8; 32] { z_signed } else { sub_be(&SECP_N, &z_signed) };
+                let same_key = pk == &s.pk[..];
+                let negated_key = pk[1..] == s.pk[1..] && pk[0] == s.pk[0] ^ 1;
+                let twin = (same_key && z_given == z_signed) || (negated_key && z_given == neg_signed);
+                if twin && !(same_key && msg == &s.msg[..]) {
+                    if o.verified {
+                        l.info(if same_key { "ecdsa-hash-congruent-mod-n:verifies(mathematical)" } else { "ecdsa-negated-hash-and-key:verifies(mathematical)" });
+                    }
+                    l.class("changed:ecdsa-algebraic-twin(informational)");
+                    return;
+                }
             }
             if o.verified {
                 bad = true;
@@ -794,6 +804,7 @@ pub fn run(ctx: Ctx) -> ! {
             "the oracle is the algebraic law of the statement (sign->verify, change->reject); it does not re-implement the curves",
             "BLS aggregate success criterion = multiset equality of (signer, message) and claimed (key, message); sound because the derived secret scalars have no known linear relation",
             "high-s ECDSA twins, empty aggregate lists and infinity points are not decided by the statement (informational)",
+            "ECDSA algebra, not the implementation: the same signature verifies for a hash congruent mod n to the signed one (0 <-> n in the message set) and, under the negated key, for a hash congruent to the negated one (z -> -z mod n, P -> -P; includes z == 0); exactly these twins are informational",
         ],
     )
 }
